@@ -153,16 +153,17 @@ Fixpoint state_after (s : st) (tr : list msg) : st :=
    lock_receiver and calls process_acquired_room, which spawns a task that inserts the room into
    acquired_lock, synchronises, ALWAYS sends Unlock(room), then removes the room from
    acquired_lock.  When the loop ends, every room in acquired_lock is unlocked by `cleanup`,
-   whether or not its task has finished (the tasks are not cancelled), and lock_receiver is dropped
-   with whatever it still contains.  acquired_lock is a HashSet: the order in which cleanup
-   unlocks is an oracle choice; model and harness use ascending room order.
+   whether or not its task has finished (the tasks are not cancelled); then lock_receiver is closed
+   (the service can no longer send into it) and every room still buffered in it is unlocked
+   (commit 2487a5d).  acquired_lock is a HashSet: the order in which cleanup unlocks is an oracle
+   choice; model and harness use ascending room order.
 
    Connection-level events are translated into the service messages they cause. *)
 Inductive cev :=
 | CRequest (c : circuit) (rooms : list rid)      (* process_remote_event -> request_locks(c, rooms, lock_reply) *)
 | CTake (c : circuit)                            (* the loop receives the oldest grant and spawns its task *)
 | CFinish (c : circuit) (r : rid)                (* a running task of c for r ends: unlock(r); acquired_lock.remove(r) *)
-| CEnd (c : circuit).                            (* the loop ends: cleanup(acquired_lock); receiver dropped *)
+| CEnd (c : circuit).                            (* the loop ends: cleanup(acquired_lock); close and drain lock_receiver *)
 
 Record conn := { cn_c : circuit;
                  cn_inbox : list rid;       (* granted, not yet taken; oldest first *)
@@ -215,11 +216,7 @@ Definition cev_msgs (cs : list conn) (e : cev) : list msg * list conn :=
       then ([Unlock c r], set_conn cs {| cn_c := c; cn_inbox := cn_inbox x; cn_acq := removeN r (cn_acq x);
                                          cn_tasks := remove_one_N r (cn_tasks x); cn_ended := cn_ended x |})
       else ([], cs)
-  | CEnd c =>
-      let x := find_conn cs c in
-      if cn_ended x then ([], cs) else
-      (map (Unlock c) (cn_acq x) ++ [DropChan c 0],
-       set_conn cs {| cn_c := c; cn_inbox := cn_inbox x; cn_acq := cn_acq x; cn_tasks := cn_tasks x; cn_ended := true |})
+  | CEnd c => ([], cs)      (* see cend below: it is not one batch of messages *)
   end.
 
 (* several messages in a row; the grants of each *)
@@ -229,10 +226,49 @@ Fixpoint steps (s : st) (ms : list msg) : st * list (list grant) :=
   | m :: tl => let '(s1, g1) := step s m in let '(s2, g2) := steps s1 tl in (s2, g1 :: g2)
   end.
 
-Definition cstep (x : cst) (e : cev) : cst * list msg * list (list grant) :=
+Definition cstep_plain (x : cst) (e : cev) : cst * list msg * list (list grant) :=
   let '(ms, cs1) := cev_msgs (c_conns x) e in
   let '(s', gss) := steps (c_svc x) ms in
   ({| c_svc := s'; c_conns := deliver cs1 (concat gss) |}, ms, gss).
+
+(* lock_receiver.close(); while let Some(room) = lock_receiver.recv().await { unlock(room) } :
+   the oldest buffered room is released, as long as there is one (n bounds the loop: nothing can
+   arrive once the channel is closed) *)
+Fixpoint drain (n : nat) (c : circuit) (s : st) (cs : list conn) : st * list conn * list msg * list (list grant) :=
+  match n with
+  | O => (s, cs, [], [])
+  | S k =>
+      let x := find_conn cs c in
+      match cn_inbox x with
+      | [] => (s, cs, [], [])
+      | r :: rest =>
+          let '(s1, g) := step s (Unlock c r) in
+          let cs1 := deliver (set_conn cs {| cn_c := c; cn_inbox := rest; cn_acq := cn_acq x;
+                                             cn_tasks := cn_tasks x; cn_ended := cn_ended x |}) g in
+          let '(s2, cs2, ms, gss) := drain k c s1 cs1 in
+          (s2, cs2, Unlock c r :: ms, g :: gss)
+      end
+  end.
+
+(* the end of a connection: cleanup(acquired_lock) — the service handles these unlocks while the
+   channel is still open, so a room re-granted to this very connection lands in it —, then close,
+   then drain *)
+Definition cend (x : cst) (c : circuit) : cst * list msg * list (list grant) :=
+  let x0 := find_conn (c_conns x) c in
+  let ms1 := map (Unlock c) (cn_acq x0) in
+  let '(s1, gss1) := steps (c_svc x) ms1 in
+  let cs1 := deliver (c_conns x) (concat gss1) in
+  let '(s2, g2) := step s1 (DropChan c 0) in
+  let x1 := find_conn cs1 c in
+  let cs2 := set_conn cs1 {| cn_c := c; cn_inbox := cn_inbox x1; cn_acq := cn_acq x1; cn_tasks := cn_tasks x1; cn_ended := true |} in
+  let '(s3, cs3, ms3, gss3) := drain (length (cn_inbox x1)) c s2 cs2 in
+  ({| c_svc := s3; c_conns := cs3 |}, ms1 ++ DropChan c 0 :: ms3, gss1 ++ g2 :: gss3).
+
+Definition cstep (x : cst) (e : cev) : cst * list msg * list (list grant) :=
+  match e with
+  | CEnd c => if cn_ended (find_conn (c_conns x) c) then (x, [], []) else cend x c
+  | _ => cstep_plain x e
+  end.
 
 Fixpoint crun (x : cst) (es : list cev) : list (cst * list msg * list (list grant)) :=
   match es with
